@@ -76,6 +76,9 @@ func run(c *hl.Ctx) error {
 	}
 	r := c.Rand()
 	n := c.Pick(40, 1500)
+	if c.Search && c.Tier != "thorough" {
+		n = 160 // a proof or the correspondence broke: search longer than the quick tier, not the whole thorough budget
+	}
 	for i := 0; i < n; i++ {
 		perturb := r.Intn(3) != 0
 		sc := genScript(r, !c.Quick() && r.Intn(4) == 0)
